@@ -9,6 +9,7 @@ package centrifuge
 // next at every lock/atomic/spawn point of the real code is decided by the simulator.
 
 import (
+	"os"
 	"context"
 	"encoding/json"
 	"errors"
@@ -48,6 +49,7 @@ type w1Client struct {
 	Proto            string            `json:"proto"` // json | protobuf
 	User             string            `json:"user"`
 	ConnSubs         []string          `json:"conn_subs,omitempty"` // connect-time server-side subscriptions
+	ConnSubExpired   bool              `json:"conn_sub_expired,omitempty"` // they carry an ExpireAt in the past: the connect command is answered with an error AFTER the connection was authenticated
 	NoPong           bool              `json:"no_pong,omitempty"`
 	PongDelayMs      int               `json:"pong_delay_ms,omitempty"`
 	ConnectHandlerMs int               `json:"on_connect_ms,omitempty"` // OnConnect takes this long
@@ -98,6 +100,7 @@ type w1Cfg struct {
 	MaxTimeLagMs    int  `json:"position_max_time_lag_ms,omitempty"`
 	ExpiredSubMs    int  `json:"expired_sub_close_delay_ms,omitempty"`
 	QueueInitialCap int  `json:"queue_initial_cap,omitempty"`
+	JoinLeaveFailPm int  `json:"broker_join_leave_fail_pm,omitempty"` // Broker.PublishJoin / PublishLeave errors
 	PresDelayPm     int  `json:"presence_delay_pm,omitempty"` // per mille of AddPresence/RemovePresence calls that take simulated time (a slow presence backend)
 }
 
@@ -864,6 +867,9 @@ func (w *w1World) setup() error {
 		// Subscribe/Unsubscribe and drop/duplicate/delay PUB/SUB deliveries
 		w.pubsub = &w1PubSub{w: w, inner: node.broker.(*MemoryBroker), subscribed: map[string]int{}}
 		node.SetBroker(w.pubsub)
+		if os.Getenv("VERIF_TRACE_MAP") != "" && node.mapBroker != nil {
+			node.SetMapBroker(&w1MapTrace{MapBroker: node.mapBroker, w: w})
+		}
 		if cfg.PresDelayPm > 0 && node.presenceManager != nil {
 			node.SetPresenceManager(&w1Presence{w: w, inner: node.presenceManager})
 		}
@@ -881,7 +887,11 @@ func (w *w1World) setup() error {
 		if len(cl.spec.ConnSubs) > 0 {
 			r.Subscriptions = map[string]SubscribeOptions{}
 			for _, ch := range cl.spec.ConnSubs {
-				r.Subscriptions[ch] = w.subscribeOptions(ch)
+				o := w.subscribeOptions(ch)
+				if cl.spec.ConnSubExpired {
+					o.ExpireAt = time.Now().Unix() - 10
+				}
+				r.Subscriptions[ch] = o
 			}
 		}
 		r.ReplyWithoutQueue = cfg.ReplyNoQueue
@@ -1091,9 +1101,17 @@ func (b *w1PubSub) Publish(ch string, data []byte, opts PublishOptions) (Publish
 	return b.inner.Publish(ch, data, opts)
 }
 func (b *w1PubSub) PublishJoin(ch string, info *ClientInfo) error {
+	if pm := b.w.sc.Cfg.JoinLeaveFailPm; pm > 0 && !b.w.settling && b.w.s.Chance(pm) {
+		b.w.s.Fault("broker_publish_join_error")
+		return errors.New("sim broker: publish join failed")
+	}
 	return b.inner.PublishJoin(ch, info)
 }
 func (b *w1PubSub) PublishLeave(ch string, info *ClientInfo) error {
+	if pm := b.w.sc.Cfg.JoinLeaveFailPm; pm > 0 && !b.w.settling && b.w.s.Chance(pm) {
+		b.w.s.Fault("broker_publish_leave_error")
+		return errors.New("sim broker: publish leave failed")
+	}
 	return b.inner.PublishLeave(ch, info)
 }
 func (b *w1PubSub) History(ch string, opts HistoryOptions) ([]*Publication, StreamPosition, error) {
@@ -1169,6 +1187,24 @@ func (p *w1Presence) AddPresence(ch string, clientID string, info *ClientInfo) e
 func (p *w1Presence) RemovePresence(ch string, clientID string, userID string) error {
 	p.delay("remove")
 	return p.inner.RemovePresence(ch, clientID, userID)
+}
+
+// w1MapTrace logs map broker publishes/removes of presence keys as world events (debugging
+// aid, enabled with VERIF_TRACE_MAP=1; it changes the event-log hash).
+type w1MapTrace struct {
+	MapBroker
+	w *w1World
+}
+
+func (t *w1MapTrace) Publish(ctx context.Context, ch string, key string, opts MapPublishOptions) (MapUpdateResult, error) {
+	r, err := t.MapBroker.Publish(ctx, ch, key, opts)
+	t.w.s.Event("map publish %s key=%s suppressed=%v err=%v", ch, key, r.Suppressed, err)
+	return r, err
+}
+func (t *w1MapTrace) Remove(ctx context.Context, ch string, key string, opts MapRemoveOptions) (MapUpdateResult, error) {
+	r, err := t.MapBroker.Remove(ctx, ch, key, opts)
+	t.w.s.Event("map remove %s key=%s suppressed=%v err=%v", ch, key, r.Suppressed, err)
+	return r, err
 }
 
 // ---------------------------------------------------------------- actors
@@ -1646,6 +1682,12 @@ func w1Gen(c *simrt.Choice, prop, tier string) any {
 			cl.Ops = append(cl.Ops, w1Op{K: []string{"sub", "rpc", "pong", "hist", "pub", "unsub", "send", "ping"}[c.Intn(8)], Ch: pickCh()})
 		}
 		cl.Ops = append(cl.Ops, w1Op{K: "connect"})
+		if prop == "C09" && c.Intn(8) == 0 {
+			// a connect that fails with an error reply after authentication (expired
+			// connect-time subscription): the connection must not accept anything else
+			cl.ConnSubs = []string{pickCh()}
+			cl.ConnSubExpired = true
+		}
 		if prop == "C09" && c.Intn(3) == 0 {
 			// an asynchronous sub_refresh handler completing after the subscription it
 			// was validated for ended (or was replaced): the command is still owed a reply
@@ -1860,6 +1902,10 @@ func w1Gen(c *simrt.Choice, prop, tier string) any {
 	cfg.QueueInitialCap = []int{0, 0, 1, 2}[c.Intn(4)]
 	if prop == "C05" || prop == "C06" || prop == "C07" || prop == "C08" || prop == "C04" {
 		cfg.PresDelayPm = []int{0, 0, 100, 300}[c.Intn(4)]
+	}
+	if prop == "C04" || prop == "C05" || prop == "C08" || prop == "C26" {
+		// join/leave publication errors (C07's pairing oracle assumes they are delivered)
+		cfg.JoinLeaveFailPm = []int{0, 0, 300}[c.Intn(3)]
 	}
 	return sc
 }
